@@ -51,7 +51,8 @@ SETTINGS_SETTERS = {"rst.prefix"}          # attributes that may be assigned
 # pure library calls: dotted name -> list of alternatives (argument types, result type, combinator,
 # needs the world).  An argument type written  ~T  means: coerced to T.
 PURE_CALLS = {
-    "os.path.abspath": [(["str"], "apath", "py_os_path_abspath", True)],
+    "os.path.abspath": [(["str"], "apath", "py_os_path_abspath", True),
+                        (["apath"], "npath", "py_os_path_abspath_of", False)],
     "os.path.isdir": [(["apath"], "bool", "py_os_path_isdir", True)],
     "os.path.isfile": [(["apath"], "bool", "py_os_path_isfile", True)],
     "os.path.exists": [(["apath"], "bool", "py_os_path_exists", True)],
@@ -70,6 +71,11 @@ PATHSPEC_CALL = "pathspec.PathSpec.from_lines"      # (pathspec.patterns.GitWild
 PATHSPEC_PATTERN = "pathspec.patterns.GitWildMatchPattern"
 CMAKE_EXT_SUB = (r"\.cmake$", "")                   # the only re.sub the translator knows
 MODULE_CONSTANTS = {"os.curdir": ("py_os_curdir", "rpath")}
+# a == b / a != b on opaque values: type -> (combinator, needs the world).  Declared for the normalised
+# absolute paths only (results of os.path.abspath on a path): str equality of two such paths is
+# decided by the world (assumption A11 of PyWalkSem.v).  T == Optional[T] is py_eq_optional (a value
+# is never equal to None).  Paths that did not go through os.path.abspath have no ==.
+EQ_COMBINATORS = {"npath": ("py_npath_eq", True)}
 WALK_CALL = "os.walk"
 
 # constructors of opaque classes: positional argument types, keyword argument types, result, combinator
@@ -107,7 +113,7 @@ RESERVED = {"s", "at", "as", "in", "if", "then", "else", "let", "fun", "forall",
             "length", "fst", "snd", "app", "negb", "andb", "orb", "handle", "wstate", "elem", "char",
             "N", "nl", "seq", "concat", "repeat", "rev", "nth", "skipn", "Z", "inl", "inr", "filter",
             "combine", "node", "action", "dot", "slash", "join", "mem", "last", "tt", "unit", "D", "F",
-            "anchor", "apath", "rpath", "stem", "basename", "dirname", "normpath", "prefixed"}
+            "anchor", "apath", "rpath", "npath", "stem", "basename", "dirname", "normpath", "prefixed"}
 # names the translation itself binds: a Python variable of that name is rejected
 INTERNAL = {"world", "docfn", "log", "ctl", "broke"}
 LOG = "log"
@@ -135,7 +141,7 @@ def fail(node, why):
 # ---------------------------------------------------------------------------------------
 # types
 
-COQ_TYPES = {"str": "str", "bool": "bool", "int": "nat", "apath": "apath", "rpath": "rpath",
+COQ_TYPES = {"str": "str", "bool": "bool", "int": "nat", "apath": "apath", "rpath": "rpath", "npath": "npath",
              "settings": "pysettings", "spec": "pyspec", "filters": "pyfilters", "writer": "pywriter",
              "dirent": "pydirentry", "documenter": "pydocumenter", "rendered": "str", "log": "pylog"}
 
@@ -564,6 +570,19 @@ class Translator:
             if ta in ("str", "rpath") and tb in ("str", "rpath"):
                 c = "py_str_eq" if isinstance(op, ast.Eq) else "py_str_ne"
                 return f"({c} {coerce(a, ta, 'str', e)} {coerce(b, tb, 'str', e)})", "bool"
+            for base in EQ_COMBINATORS:
+                comb, needs_world = EQ_COMBINATORS[base]
+                head = f"{comb} {WORLD}" if needs_world else comb
+                eq = f"({head})" if needs_world else head
+                if ta == base and tb == base:
+                    t = f"({head} {a} {b})"
+                elif ta == base and tb == ("opt", base):
+                    t = f"(py_eq_optional {eq} {a} {b})"
+                elif ta == ("opt", base) and tb == base:
+                    t = f"(py_eq_optional {eq} {b} {a})"
+                else:
+                    continue
+                return (t if isinstance(op, ast.Eq) else f"(negb {t})"), "bool"
             fail(e, f"comparison of {show_type(ta)} and {show_type(tb)}")
         fail(e, "comparison operator")
 
@@ -1152,6 +1171,11 @@ HEADER = """(* GENERATED by translators/pywalk2coq.py from {src} -- do not edit;
                                     ds_os_walk from then on (os.walk does not see the rebound name)
      paths                          abspath/isdir/... : apath (anchored) and rpath (relative); a str used as a
                                     path argument is py_rpath_of_name, an rpath used as a str py_rpath_text
+     os.path.abspath(P)  P a path   py_os_path_abspath_of P : npath, a normalised absolute path; only those
+                                    have == (py_npath_eq world a b, decided by where the world says the output
+                                    directory is); a == b with b Optional: py_eq_optional (py_npath_eq world) a b
+     X if C else Y                  if C then X else Y;  X if V is not None else Y: match V with Some V => X | None => Y
+                                    end (the types of the branches are unified: T and None give option T)
    world and docfn are the section variables: the abstract file tree and Documenter(..).process().to_text(). *)
 From Coq Require Import String List NArith ZArith Bool Arith.
 From CMinx Require Import Base.Str Base.PySem Base.PyWalkSem Model.Writer Model.Walk.
